@@ -226,6 +226,20 @@ def install_fake_ck():
     sys.modules['confluent_kafka'] = m
 
 
+def simple_env(rec, lp, nmsgs=2):
+    """a minimal world for other families (C19): one partition holding nmsgs messages, no faults"""
+    install_fake_ck()
+    import streamz.sources
+    streamz.sources.time = _TimeShim
+    b = FakeBroker(1)
+    for _ in range(nmsgs):
+        b.append(0)
+    ENV.clear()
+    ENV.update({'broker': b, 'rec': rec, 'loop': lp, 'wm_calls': 0, 'committed_calls': 0, 'wm_fail': set(),
+                'committed_fail': 0, 'commit_lat': None, 'fired': {}, 'stalls': 0, 'fetch_calls': 0, 'fetch_fail': set()})
+    return b
+
+
 class _KafkaClock(simloop._Clock):
     """streamz.sources.time: sleep() is a stall of the loop thread (get_message_batch waits for a message)"""
     def sleep(self, d):
